@@ -94,3 +94,93 @@ Proof.
       destruct (beqb k n) eqn:E3; [|reflexivity]. apply beqb_eq in E3. subst.
       rewrite beqb_refl in E. discriminate.
 Qed.
+
+(* ---------------------------------------------------------------- blanks *)
+Lemma blank_is_ws c : blank c = true -> is_ws c = true.
+Proof. unfold blank, is_ws. lia. Qed.
+Lemma blanks_ws w : blanks w = true -> forallb is_ws w = true.
+Proof.
+  induction w as [|c w IH]; [reflexivity|]. cbn [blanks forallb]. intros H.
+  apply andb_true_iff in H as [Hc Hw]. rewrite (blank_is_ws _ Hc). now apply IH.
+Qed.
+Lemma blanks_no_nl w : blanks w = true -> contains 10 w = false.
+Proof.
+  induction w as [|c w IH]; [reflexivity|]. cbn [blanks forallb]. intros H.
+  apply andb_true_iff in H as [Hc Hw]. rewrite contains_cons, (IH Hw). unfold blank in Hc. lia.
+Qed.
+
+Lemma lstrip_ws_prefix w x : forallb is_ws w = true -> lstrip (w ++ x) = lstrip x.
+Proof.
+  induction w as [|c w IH]; [reflexivity|]. cbn [forallb]. intros H.
+  apply andb_true_iff in H as [Hc Hw]. cbn [app lstrip]. rewrite Hc. now apply IH.
+Qed.
+Lemma split_ws_ws_prefix w x : forallb is_ws w = true -> split_ws (w ++ x) = split_ws x.
+Proof.
+  induction w as [|c w IH]; [reflexivity|]. cbn [forallb]. intros H.
+  apply andb_true_iff in H as [Hc Hw]. cbn [app]. rewrite split_ws_leading by exact Hc. now apply IH.
+Qed.
+Lemma rstrip_ws_suffix x w : forallb is_ws w = true -> rstrip (x ++ w) = rstrip x.
+Proof.
+  revert x. induction w as [|c w IH] using rev_ind; intros x H.
+  - now rewrite app_nil_r.
+  - rewrite forallb_app in H. apply andb_true_iff in H as [Hw Hc].
+    cbn [forallb] in Hc. rewrite andb_true_r in Hc.
+    rewrite app_assoc, rstrip_snoc, Hc. now apply IH.
+Qed.
+
+Lemma split_ws_cons2 x d r : is_ws x = false ->
+  split_ws (x :: d :: r) = if is_ws d then [x] :: split_ws (d :: r)
+                           else match split_ws (d :: r) with t :: ts => (x :: t) :: ts | [] => [[x]] end.
+Proof.
+  intros H. remember (d :: r) as w eqn:Hw. cbn [split_ws]. rewrite H. rewrite Hw at 1. reflexivity.
+Qed.
+
+Lemma split_ws_snoc_ws b c : is_ws c = true -> split_ws (b ++ [c]) = split_ws b.
+Proof.
+  intros Hc. induction b as [|x b IH].
+  - cbn [app split_ws]. now rewrite Hc.
+  - cbn [app]. destruct (is_ws x) eqn:Ex.
+    + rewrite !split_ws_leading by exact Ex. exact IH.
+    + destruct b as [|d b'].
+      * cbn [app split_ws]. rewrite Ex, Hc. reflexivity.
+      * change ((d :: b') ++ [c]) with (d :: (b' ++ [c])) in *.
+        rewrite !split_ws_cons2 by exact Ex. rewrite IH. reflexivity.
+Qed.
+
+(* ---------------------------------------------------------------- IEEE rounding leaves representable numbers alone *)
+Require Import ZifyBool.
+Lemma round_he_exact a p : 0 < p -> a mod p = 0 -> round_he a p * p = a.
+Proof.
+  intros Hp Hm. unfold round_he. rewrite Hm.
+  assert (2 * 0 <? p = true) as -> by lia.
+  pose proof (Z.div_mod a p ltac:(lia)). lia.
+Qed.
+
+Lemma rnd53_exact x : x mod 1024 = 0 -> - 2 ^ 63 < x < 2 ^ 63 -> rnd53 x = x.
+Proof.
+  intros Hm Hb. unfold rnd53.
+  destruct (Z.abs x <? 2 ^ 53) eqn:E; [reflexivity|].
+  set (a := Z.abs x) in *.
+  assert (Ha : 2 ^ 53 <= a < 2 ^ 63) by (unfold a; lia).
+  assert (L1 : 53 <= Z.log2 a) by (apply Z.log2_le_pow2; lia).
+  assert (L2 : Z.log2 a < 63) by (apply Z.log2_lt_pow2; lia).
+  assert (Am : a mod 1024 = 0).
+  { unfold a. destruct (Z.abs_spec x) as [[_ ->]|[_ ->]]; [exact Hm|].
+    rewrite Z.mod_opp_l_z; lia. }
+  set (s := Z.log2 a - 52) in *.
+  assert (Hs : s = 1 \/ s = 2 \/ s = 3 \/ s = 4 \/ s = 5 \/ s = 6 \/ s = 7 \/ s = 8 \/ s = 9 \/ s = 10) by lia.
+  assert (R : round_he a (2 ^ s) * 2 ^ s = a).
+  { apply round_he_exact.
+    - apply Z.pow_pos_nonneg; lia.
+    - destruct Hs as [->|[->|[->|[->|[->|[->|[->|[->|[->| ->]]]]]]]]];
+        change (2 ^ 1) with 2; change (2 ^ 2) with 4; change (2 ^ 3) with 8; change (2 ^ 4) with 16;
+        change (2 ^ 5) with 32; change (2 ^ 6) with 64; change (2 ^ 7) with 128; change (2 ^ 8) with 256;
+        change (2 ^ 9) with 512; change (2 ^ 10) with 1024;
+        clear -Am; revert Am; generalize a; intros z Hz;
+        pose proof (Z.div_mod z 1024 ltac:(lia)) as D; rewrite Hz in D;
+        rewrite D, Z.add_0_r;
+        match goal with |- (1024 * ?q) mod ?m = 0 =>
+          let f := eval vm_compute in (1024 / m) in
+          replace (1024 * q) with (f * q * m) by lia; apply Z.mod_mul; lia end. }
+  rewrite R. unfold a. lia.
+Qed.
